@@ -130,7 +130,29 @@ impl Topo {
                     fixtures::ev_market_l1(id, i, time, Some((Decimal::from(100), Decimal::ONE)), Some((Decimal::from(101), Decimal::ONE)))
                 }
             }
-            K::A => match var % 3 {
+            // every kind of item an account link delivers - incl. the order responses the execution manager
+            // fabricates when a request times out - is "an event from that link"
+            K::A => match var % 6 {
+                3 => {
+                    let i = self.instr_of[e][(var / 6) % self.instr_of[e].len()];
+                    fixtures::ev_order_snapshot(
+                        e,
+                        i,
+                        "cid1",
+                        Side::Buy,
+                        Decimal::from(100),
+                        Decimal::from(10),
+                        OrderState::inactive(barter_execution::error::OrderError::Connectivity(barter_execution::error::ConnectivityError::Timeout)),
+                    )
+                }
+                4 => {
+                    let i = self.instr_of[e][(var / 6) % self.instr_of[e].len()];
+                    fixtures::ev_cancel_response(e, i, "cid2", Err(barter_execution::error::OrderError::Connectivity(barter_execution::error::ConnectivityError::Timeout)))
+                }
+                5 => {
+                    let i = self.instr_of[e][(var / 6) % self.instr_of[e].len()];
+                    fixtures::ev_trade(e, i, &format!("tr{idx}"), time, Side::Buy, Decimal::from(100), Decimal::ONE, Decimal::ZERO)
+                }
                 0 => {
                     let a = self.asset_of[e][(var / 3) % self.asset_of[e].len()];
                     fixtures::ev_balance(e, a, time, Decimal::from(10 + var as i64), Decimal::from(5))
